@@ -38,7 +38,7 @@ def theorems(path):
         m = re.match(r"^end\s+(\S+)", l)
         if m and ns and ns[-1] == m.group(1):
             ns.pop(); continue
-        m = re.match(r"^(?:@\[[^\]]*\]\s*)?theorem\s+([A-Za-z_][\w.']*)", l)
+        m = re.match(r"^(?:@\[[^\]]*\]\s*)?theorem\s+([^\s:({\[]+)", l)
         if m:
             out.append(".".join(ns + [m.group(1)]))
     return out
